@@ -1787,8 +1787,10 @@ class InTablePhase(Phase):
         self.parser.parseError("unexpected-start-tag-implies-table-voodoo", {"name": token["name"]})
         # Do the table magic!
         self.tree.insertFromTable = True
-        self.parser.phases["inBody"].processStartTag(token)
+        new_token = self.parser.phases["inBody"].processStartTag(token)
         self.tree.insertFromTable = False
+        # (the "in body" rules may ask for the token to be reprocessed)
+        return new_token
 
     def endTagTable(self, token):
         if self.tree.elementInScope("table", variant="table"):
@@ -1813,8 +1815,9 @@ class InTablePhase(Phase):
         self.parser.parseError("unexpected-end-tag-implies-table-voodoo", {"name": token["name"]})
         # Do the table magic!
         self.tree.insertFromTable = True
-        self.parser.phases["inBody"].processEndTag(token)
+        new_token = self.parser.phases["inBody"].processEndTag(token)
         self.tree.insertFromTable = False
+        return new_token
 
     startTagHandler = _utils.MethodDispatcher([
         ("html", Phase.startTagHtml),
